@@ -3,7 +3,7 @@ from .c04 import STB
 
 
 def run(res):
-    n = 145 if res.tier == "quick" else 2900
+    n = 170 if res.tier == "quick" else 3400
     lib.standard_check(
         res, "c12", n,
         prop_files=["theories/Properties/C12.v"],
